@@ -4,7 +4,7 @@
 From Coq Require Import NArith ZArith List Bool String.
 From FitV Require Import Model.Values Model.Bytes Model.Profile Model.Reflect Model.Components Model.Route Model.IO
   Model.Encode Model.Decode Spec.RoundTrip
-  Proofs.C07Fixpoint Proofs.C07Reencode Proofs.EncExamples.
+  Spec.RouteSpec Proofs.C07Fixpoint Proofs.C07Reencode Proofs.C07DecodeWf Proofs.C07Integrity Proofs.StreamDenoteDecode Proofs.EncExamples.
 Import ListNotations.
 Local Open Scope N_scope.
 
@@ -38,6 +38,86 @@ Print Assumptions C07_parse_data_message_wf.
 Theorem C07_file_add_typed : forall f g m f' g',
   mwf m -> all_typed (f_slots f) -> file_add f g m = AddOk f' g' -> all_typed (f_slots f').
 Proof. exact file_add_typed. Qed.
+
+(* ---- decode_wf at File level: for ANY input bytes, options, accumulator state and reader, a File Decode returns
+   without error has the container init created for a valid file type, every slot holds well-typed messages of
+   its own type, pointer slots at most one, FileId exactly one ... *)
+Theorem C07_decode_slots_wf : forall o g rd fuel h file' rd' g' q,
+  Forall (fun b => b < 256) (rd_data rd) ->
+  entry_Decode o g rd fuel = TDone (mk_dres None h (Some file') rd' g' q) ->
+  exists ft, f_inited file' = Some ft /\ In ft valid_file_types /\
+             slots_wf 0 (slots_of ft) (f_slots file') = true.
+Proof. exact decode_slots_wf. Qed.
+(* ... hence it is wf_file exactly when FileId.Type still names that container (no second file_id record of
+   another type: the known finding second_file_id is the ONLY way a decoded File is not wf_file) *)
+Theorem C07_decode_wf_iff : forall o g rd fuel h file' rd' g' q,
+  Forall (fun b => b < 256) (rd_data rd) ->
+  entry_Decode o g rd fuel = TDone (mk_dres None h (Some file') rd' g' q) ->
+  exists ft, f_inited file' = Some ft /\ wf_file file' = (ft =? file_type file').
+Proof. exact decode_wf_iff. Qed.
+Theorem C07_decode_wf : forall o g rd fuel h file' rd' g' q,
+  Forall (fun b => b < 256) (rd_data rd) ->
+  entry_Decode o g rd fuel = TDone (mk_dres None h (Some file') rd' g' q) ->
+  forall ft, f_inited file' = Some ft -> file_type file' = ft -> wf_file file' = true.
+Proof. exact decode_wf. Qed.
+Print Assumptions C07_decode_wf.
+(* the re-encode clause: anything Decode accepts re-encodes (or hits the UTF-8 defect); Encode never panics on it *)
+Theorem C07_decode_reencode : forall o g rd fuel h file' rd' g' q be,
+  Forall (fun b => b < 256) (rd_data rd) ->
+  entry_Decode o g rd fuel = TDone (mk_dres None h (Some file') rd' g' q) ->
+  f_inited file' = Some (file_type file') ->
+  (exists r, encode file' be = EOk r) \/ encode file' be = EErr EEString.
+Proof. exact decode_reencode. Qed.
+Print Assumptions C07_decode_reencode.
+(* ... and its output passes CheckIntegrity: the whole re-encode clause in one statement.  For any input Decode
+   accepts (whose FileId.Type still names the container): Encode fails with the UTF-8 error, or writes bytes that
+   CheckIntegrity accepts through any reader (bytes shorter than 2^32: the data-size field is 32 bits) *)
+Theorem C07_reencode_total_integrity : forall o g rd fuel h file' rd' g' q be,
+  Forall (fun b => b < 256) (rd_data rd) ->
+  entry_Decode o g rd fuel = TDone (mk_dres None h (Some file') rd' g' q) ->
+  f_inited file' = Some (file_type file') ->
+  encode file' be = EErr EEString \/
+  exists bs f'', encode file' be = EOk (bs, f'') /\
+    (N.of_nat (List.length bs) < 4294967296 -> forall g2 rd2 fuel2 extra,
+       rd_data rd2 = bs ++ extra -> (List.length (rd_data rd2) + List.length (rd_sched rd2) < fuel2)%nat ->
+       exists r, entry_CheckIntegrity false g2 rd2 fuel2 = TDone r /\ dr_err r = None).
+Proof. exact reencode_total_integrity. Qed.
+Print Assumptions C07_reencode_total_integrity.
+(* the header Decode leaves in the File is one Encode accepts *)
+Theorem C07_decode_file_header : forall o g rd fuel h file' rd' g' q,
+  Forall (fun b => b < 256) (rd_data rd) ->
+  entry_Decode o g rd fuel = TDone (mk_dres None h (Some file') rd' g' q) ->
+  f_header file' = h /\ Proofs.EncodeProofs.wf_header h = true /\ Model.Header.proto_ok (Model.Header.h_proto h) = true /\ Model.Header.h_profile h < 65536.
+Proof. exact decode_file_header. Qed.
+Theorem C07_decode_chained_wf : forall o g rd fuel files rd' g' q,
+  Forall (fun b => b < 256) (rd_data rd) ->
+  entry_DecodeChained o g rd fuel = TDone (mk_cres None files rd' g' q) ->
+  Forall (fun f => exists ft, f_inited f = Some ft /\ wf_file f = (ft =? file_type f)) files.
+Proof. exact decode_chained_wf. Qed.
+(* the hypotheses are satisfiable (a concrete stream read in chunks), and the side condition is necessary:
+   a file_id definition, an activity file_id, then a settings file_id decodes to a File that is not wf_file *)
+Example C07_decode_wf_example :
+  Forall (fun b => b < 256) (rd_data ok_reader) /\
+  match entry_Decode no_opts g_init ok_reader 200 with
+  | TDone r =>
+      match dr_err r, dr_file r with
+      | None, Some f => opt_n_eqb (f_inited f) (Some (file_type f)) && wf_file f
+      | _, _ => false
+      end
+  | _ => false
+  end = true.
+Proof. exact decode_wf_example. Qed.
+Theorem C07_decode_wf_needs_single_file_id :
+  Forall (fun b => b < 256) (rd_data sfid_reader) /\
+  match entry_Decode no_opts g_init sfid_reader 100 with
+  | TDone r =>
+      match dr_err r, dr_file r with
+      | None, Some f => opt_n_eqb (f_inited f) (Some 4) && (file_type f =? 2) && negb (wf_file f)
+      | _, _ => false
+      end
+  | _ => false
+  end = true.
+Proof. exact decode_wf_needs_single_file_id. Qed.
 
 (* ---- every decoded message of a type a container can host re-encodes (or hits the string defect) *)
 Theorem C07_reencode_message : forall o b compressed be,
